@@ -21,7 +21,7 @@ namespace Badger
 
 def Ent.eraseVP (e : Ent) : Ent := { e with emeta := clearBit e.emeta bitValuePointer }
 def eraseL (l : List Ent) : List Ent := l.map Ent.eraseVP
-def Tbl.eraseVP (t : Tbl) : Tbl := { ents := eraseL t.ents }
+def Tbl.eraseVP (t : Tbl) : Tbl := { t with ents := eraseL t.ents }
 def Lsm.eraseVP (s : Lsm) : Lsm :=
   { mem := eraseL s.mem, imm := s.imm.map eraseL, levels := s.levels.map (·.map Tbl.eraseVP) }
 def Db.norm (d : Db) : Db :=
@@ -540,7 +540,7 @@ theorem norm_txnGet (d : Db) (id : Nat) (k : Bytes) :
     · simp only [norm_lsm, norm_now, C37_get_eraseVP]
       exact getAnswer_eraseVP t k d.now _
 
-theorem flush_eraseVP (s : Lsm) : s.flush.eraseVP = s.eraseVP.flush := by
+theorem flush_eraseVP (s : Lsm) (id : Nat) : (s.flush id).eraseVP = s.eraseVP.flush id := by
   unfold Lsm.flush
   have h1 : (s.eraseVP.mem).isEmpty = s.mem.isEmpty := by
     simp [Lsm.eraseVP, eraseL]
@@ -717,6 +717,7 @@ theorem iterReads_eraseL (seek : Option Bytes) (items : List Ent) :
 /-- operations covered by the simulation proof (everything except `compact`) -/
 def Op.covered : Op → Bool
   | .compact _ => false
+  | .dropAll => false    -- in memory `DropAll` also resets the threshold (finding F18)
   | _ => true
 
 theorem norm_step_iter (d : Db) (id : Nat) (o : IterOpts) (seek : Option Bytes) :
@@ -757,9 +758,9 @@ theorem C37_step_norm (d : Db) (op : Op) (hc : op.covered = true)
   | commit id m => exact (norm_commit d id m).1
   | discard id => exact norm_fix (norm_discardTxn d id)
   | iter id o seek => exact norm_fix (norm_step_iter d id o seek)
-  | flush =>
+  | flush id =>
     simp only [Db.step]
-    show ({ d with lsm := d.lsm.flush } : Db).norm = ({ d.norm with lsm := d.norm.lsm.flush } : Db).norm
+    show ({ d with lsm := d.lsm.flush id } : Db).norm = ({ d.norm with lsm := d.norm.lsm.flush id } : Db).norm
     simp only [Db.norm, flush_eraseVP, Lsm.eraseVP_idem]
   | setNow t => simp only [Db.step]; show _ = ({ d.norm with now := t } : Db).norm; simp [Db.norm, Lsm.eraseVP_idem]
   | setDiscard ts =>
@@ -770,6 +771,20 @@ theorem C37_step_norm (d : Db) (op : Op) (hc : op.covered = true)
     congr 1
     simp [Db.norm, Lsm.eraseVP_idem]
   | compact cd => cases hc
+  | dropAll => cases hc
+  | dropPrefix n =>
+    clear hc hset
+    simp only [Db.step]
+    induction n generalizing d with
+    | zero => exact (norm_idem d).symm
+    | succ n ih =>
+      rw [List.replicate_succ, List.foldl_cons, List.foldl_cons]
+      have hm : d.norm.opts.managed = d.opts.managed := rfl
+      rw [hm]
+      by_cases hmm : d.opts.managed = true
+      · simp only [hmm, if_true]; exact ih d
+      · simp only [hmm, Bool.false_eq_true, if_false]
+        exact ih { d with readMark := (d.readMark.begin (d.nextTs - 1)).done (d.nextTs - 1) }
 
 /-- the initial states of the two modes agree up to `norm` -/
 theorem C37_init (o : Opts) (now : Nat) :
@@ -819,7 +834,7 @@ theorem C37_same_reads_run (dI dD : Db) (ops : List Op) (h : dI.norm = dD.norm)
   | cons op ops ih =>
     obtain ⟨hc, hset, ha'⟩ := ha
     simp only [Db.run, List.foldl_cons]
-    exact ih _ _ (C37_same_reads dI dD op h hD hc hset) (by rw [step_opts]; exact hD) ha'
+    exact ih _ _ (C37_same_reads dI dD op h hD hc hset) (by rw [(step_opts dD op).2]; exact hD) ha'
 
 /-- the compaction step of the simulation (full statement; see `C37_compact_norm` below if
     present, otherwise this part is open): compaction reads only keys, versions, expiry and
@@ -833,7 +848,7 @@ def C37_same_reads_compactStatement : Prop :=
 example :
     let ops : List Op := [.begin 1 true 0,
       .set 1 { key := [0x61], ver := 0, emeta := 0, umeta := 7, exp := 0, val := [1, 2, 3] },
-      .commit 1 0, .flush, .begin 2 false 0, .get 2 [0x61]]
+      .commit 1 0, .flush 1, .begin 2 false 0, .get 2 [0x61]]
     let dI := Db.init { inMemory := true, threshold := 3, maxBatchCount := 100, maxBatchSize := 100000 } 0
     let dD := Db.init { inMemory := false, threshold := 3, maxBatchCount := 100, maxBatchSize := 100000 } 0
     ((dI.run ops).lsm.get [0x61] 1).map (·.emeta) = some 64 ∧
